@@ -3,7 +3,7 @@ CONSTANTS
   MaxBlocks = 2
   MaxReqs = 3
   Templates = {"o23", "ref", "dq", "jmp"}
-  PatchKinds = {"plain2", "ref", "bytes"}
+  PatchKinds = {"plain2", "ref", "bytes", "datasec"}
   FnLayouts = {"none", "one"}
   EndSyms = {FALSE}
   NoSyms = {FALSE}
